@@ -62,7 +62,7 @@ def mkSigner (spec : String) : Option Signer :=
          (match arg.toNat? with
           | some k => some { alg := alg, sign := fun tbs => .ok (1 :: UInt8.ofNat k :: tbs) }
           | none => none)
-       else if arg = "err" then some { alg := alg, sign := fun _ => .err .signer }
+       else if arg = "err" || arg = "errb" then some { alg := alg, sign := fun _ => .err .signer }
        else if arg = "empty" then some { alg := alg, sign := fun _ => .ok [] }
        else none)
   | _ => none
@@ -451,9 +451,11 @@ def opKeyUse (a : List String) : M String :=
      | _ => some "bad-op")
   | _ => some "bad-op"
 
-def withExtras (k : Key) : Key :=
-  { k with id := some [1, 2], ops := some [1, 2], baseIV := some [9],
-           params := k.params.set (.str "x-extra".toUTF8.toList) (.int .i64 5) }
+def withExtras (k : Key) (n : Nat := 1) : Key :=
+  let p0 : GoMap := k.params.set (.str "x-extra".toUTF8.toList) (.int .i64 5)
+  let p1 : GoMap := (List.range (n - 1)).foldl
+    (fun (acc : GoMap) (i : Nat) => acc.set (GoVal.int .i64 (-(100 + (i : Int)))) (GoVal.int .i64 (i : Int))) p0
+  { k with id := some [1, 2], ops := some [1, 2], baseIV := some [9], params := p1 }
 
 def curveBits : String → Nat
   | "p256" => 256 | "p384" => 384 | "p521" => 521 | "p224" => 224 | _ => 0
@@ -461,14 +463,17 @@ def curveBits : String → Nat
 def opKeyRT (a : List String) : M String :=
   match a with
   | cn :: xs :: ys :: ds :: rest =>
-    let extras := rest.head? == some "+"
+    let extrasN : Nat := match rest.head? with
+      | some t => if t.startsWith "+" then ((t.drop 1).toString.toNat?.getD 1) else 0
+      | none => 0
+    let extras := extrasN > 0
     (match unhexArg xs, unhexArg ys, unhexArg ds with
      | some xo, some yo, some dopt =>
        if cn = "ed" then
          let pub := xo.getD []
          (match keyFromEd pub dopt with
           | .ok k0 =>
-            let k := if extras then withExtras k0 else k0
+            let k := if extras then withExtras k0 extrasN else k0
             (match k.marshal with
              | .ok enc =>
                (match Key.unmarshal enc with
@@ -490,7 +495,7 @@ def opKeyRT (a : List String) : M String :=
          let d := dopt.map os2ip
          (match keyFromEC (curveBits cn) x y d with
           | .ok k0 =>
-            let k := if extras then withExtras k0 else k0
+            let k := if extras then withExtras k0 extrasN else k0
             (match k.marshal with
              | .ok enc =>
                (match Key.unmarshal enc with
@@ -531,6 +536,32 @@ def opEcEnc (a : List String) : M String :=
         | some sig => some ("ok " ++ hexOfBytes sig)
         | none => some "err")
      | _, _ => some "bad-op")
+  | _ => some "bad-op"
+
+/-- `ecenc2 ALG CURVE R S`: the width comes from the KEY's curve, whatever the algorithm -/
+def opEcEnc2 (a : List String) : M String :=
+  match a with
+  | _alg :: cn :: rs :: ss :: _ => opEcEnc [cn, rs, ss]
+  | _ => some "bad-op"
+
+/-- `khist h1,h2,…`: successive decodes into ONE Key variable; after a successful decode the key
+    is the fresh decoding (state of earlier decodes must not survive) -/
+def opKHist (a : List String) : M String :=
+  match a with
+  | steps :: _ =>
+    (match mapM' (fun s => (unhexArg s).bind id) (splitOnChar ',' steps) with
+     | some bs =>
+       let outs := bs.map fun b =>
+         match Key.unmarshal b with
+         | .ok k => some ("ok:" ++ k.dump ++ ":" ++ okAlg k.signer ++ ":" ++
+             (match k.verifier true, k.verifier false with
+              | .ok a, .error _ => "OC(ok:" ++ intStr a ++ ")"
+              | r, _ => okAlg r))
+         | .err _ => some "err"
+         | .panic => some "panic"
+         | .unmodelled => none
+       (mapM' id outs).map (joinWith " ")
+     | none => some "bad-op")
   | _ => some "bad-op"
 
 def opEcDec (a : List String) : M String :=
@@ -828,6 +859,8 @@ def runLine (line : String) : String :=
     | "keyrt" :: a => opKeyRT a
     | "ecenc" :: a => opEcEnc a
     | "ecdec" :: a => opEcDec a
+    | "ecenc2" :: a => opEcEnc2 a
+    | "khist" :: a => opKHist a
     | "new" :: a => opNew a
     | "hist" :: a => opHist a
     | "use" :: a => opUse a
